@@ -63,9 +63,15 @@ def queries(s, obj, pre, pr, rng, upstream):
     s.add('sp.meta', obj, pre + 'm')
     s.add('sp.energy', obj, pre + 'E')
     s.add('sp.egrad', obj, pre + 'A', 'val')
+    if pre.startswith('r'):
+        # the reference-output overloads write into caller structs that earlier queries (other N) left dirty
+        s.add('sp.egrad', obj, pre + 'Aref', 'ref', 'GR')
+        s.add('sp.partials', obj, pre + 'Qref', 'refdirty')
     s.add('sp.partials', obj, pre + 'Q', 'val')
     g, gt = upstream(rows, N)
     s.add('sp.prop', obj, pre + 'G', 'val', rows, *g, N, *gt)
+    if pre.startswith('r'):
+        s.add('sp.prop', obj, pre + 'Gref', 'ref', 'GR2', rows, *g, N, *gt)
     for i in range(N):
         for k in (0, 1, C.SD[o]):
             s.add('sp.seg', obj, i, 'tl', k, '%sv%d_%d' % (pre, i, k))
@@ -118,11 +124,12 @@ def tp_names(s, tag, N, rng):
 
 
 def compare_all(sc, g, a, b, what, ints_in_both=False):
-    """every out / int with prefix a equals the one with prefix b"""
+    """every out / int with prefix a equals the one with prefix b (outputs of the reference overloads `<x>ref` are compared with the value overloads `<x>` of the other side)"""
+    import re
     n = 0
     for k in sorted(g.outs):
         if k.startswith(a):
-            k2 = b + k[len(a):]
+            k2 = b + re.sub(r'^(A|Q|G)ref', r'\1', k[len(a):])
             if k2 not in g.outs:
                 sc.check('%s: observable %s exists for the fresh object' % (what, k[len(a):]), False, 'missing')
                 continue
@@ -130,9 +137,10 @@ def compare_all(sc, g, a, b, what, ints_in_both=False):
             n += 1
     for k in sorted(g.ints):
         if k.startswith(a):
-            if ints_in_both and (b + k[len(a):]) not in g.ints:
+            kb = b + re.sub(r'^(A|Q|G)ref', r'\1', k[len(a):])
+            if ints_in_both and kb not in g.ints:
                 continue
-            sc.int_eq('%s: %s == fresh object' % (what, k[len(a):]), k, g.ints.get(b + k[len(a):]))
+            sc.int_eq('%s: %s == fresh object' % (what, k[len(a):]), k, g.ints.get(kb))
     return n
 
 
@@ -233,7 +241,9 @@ def run_ws(t):
     flA, flB = X.flags_from_int(0b11111111), X.flags_from_int(0b00100000)
     # each history: list of (optimizer key, problem key); the LAST entry is compared with a fresh workspace
     confs = {'A3': (3, flA), 'B2': (2, flB), 'C3': (3, flB), 'D3': (3, flA), 'E1': (1, flA), 'F4': (4, flB)}
-    hists = [['A3', 'B2'], ['B2', 'A3'], ['A3', 'C3'], ['C3', 'A3'], ['A3', 'D3'], ['A3', 'B2', 'A3'], ['E1', 'A3'], ['A3', 'E1'], ['F4', 'B2', 'C3'], ['A3', 'A3'], ['C3', 'D3', 'B2']]
+    # key[:o2] = 2-cost overload (no waypoint cost), key[:r0] = energy weight 0 for that evaluation
+    hists = [['A3', 'B2'], ['B2', 'A3'], ['A3', 'C3'], ['C3', 'A3'], ['A3', 'D3'], ['A3', 'B2', 'A3'], ['E1', 'A3'], ['A3', 'E1'], ['F4', 'B2', 'C3'], ['A3', 'A3'], ['C3', 'D3', 'B2'],
+             ['A3', 'D3:o2'], ['A3:o2', 'D3'], ['A3', 'D3:r0'], ['A3:r0', 'C3'], ['A3', 'C3:o2:r0'], ['B2', 'E1:o2', 'B2']]
     for hi, h in enumerate(hists):
         for wsmode in ('explicit', 'builtin'):
             rng = C.rng_for(t['seed'], 'C10w', o, d, hi, wsmode)
@@ -247,7 +257,10 @@ def run_ws(t):
                 s.add('opt.new OB')
                 s.add('opt.rho OB', rho)
                 s.add('opt.steps OB 2')
-            for step, key in enumerate(h):
+            for step, key0 in enumerate(h):
+                key, opts = key0.split(':')[0], key0.split(':')[1:]
+                costs = 'o2' if 'o2' in opts else 'o3'
+                rho_here = '0' if 'r0' in opts else rho
                 N, fl = confs[key]
                 tag = 'k%s%d' % (key, step)
                 op = X.OptProblem(s, tag, o, d, N, rng)
@@ -259,28 +272,29 @@ def run_ws(t):
                     s.add('opt.new', 'O%d' % step)
                     op.init('O%d' % step, 'I%d' % step)
                     X.set_flags(s, 'O%d' % step, fl)
-                    s.add('opt.rho', 'O%d' % step, rho)
+                    s.add('opt.rho', 'O%d' % step, rho_here)
                     s.add('opt.steps', 'O%d' % step, 2)
-                    X.eval_cmd(s, 'O%d' % step, 'R%d' % step, xs, ws='W', tag='e%d' % step)
+                    X.eval_cmd(s, 'O%d' % step, 'R%d' % step, xs, ws='W', tag='e%d' % step, costs=costs)
                     if last:
                         # a copy of the used workspace behaves like the workspace (and like a fresh one)
                         s.add('opt.wscopy WC W')
-                        X.eval_cmd(s, 'O%d' % step, 'RC', xs, ws='WC', tag='e%d' % step)
+                        X.eval_cmd(s, 'O%d' % step, 'RC', xs, ws='WC', tag='e%d' % step, costs=costs)
                         s.add('opt.wsspline W RS')
-                        X.eval_cmd(s, 'O%d' % step, 'F', xs, ws='WF', tag='e%d' % step)
+                        X.eval_cmd(s, 'O%d' % step, 'F', xs, ws='WF', tag='e%d' % step, costs=costs)
                         s.add('opt.wsspline WF FS')
                 else:
                     op.init('OB', 'I%d' % step)
                     X.set_flags(s, 'OB', fl)
-                    X.eval_cmd(s, 'OB', 'R%d' % step, xs, ws='-', tag='e%d' % step)
+                    s.add('opt.rho OB', rho_here)
+                    X.eval_cmd(s, 'OB', 'R%d' % step, xs, ws='-', tag='e%d' % step, costs=costs)
                     if last:
                         s.add('opt.spline OB RS')
                         s.add('opt.new OF')
-                        s.add('opt.rho OF', rho)
+                        s.add('opt.rho OF', rho_here)
                         s.add('opt.steps OF 2')
                         op.init('OF', 'IF')
                         X.set_flags(s, 'OF', fl)
-                        X.eval_cmd(s, 'OF', 'F', xs, ws='-', tag='e%d' % step)
+                        X.eval_cmd(s, 'OF', 'F', xs, ws='-', tag='e%d' % step, costs=costs)
                         s.add('opt.spline OF FS')
             L = len(h) - 1
             sc = O.Scenario(ID, '%s %s history=%s' % (t['name'], wsmode, '->'.join(h)), tu, s, timeout=t['timeout'])
